@@ -632,6 +632,24 @@ func c14GenB(r *core.Rng) c14Case {
 		ms.Mods = append(ms.Mods, sub)
 		ms.Features = append([]string{m0.Arg + ":sf0", m0.Arg + ":sf1"}, ms.Features...)
 	}
+	// a feature name with a period in it (a legal identifier), in every second set
+	if r.Bool() {
+		for _, m := range ms.Mods {
+			m.Walk(func(st *yang.Stmt, _ int) {
+				switch {
+				case st.Kw == "feature" && st.Arg == "f1":
+					st.Arg = "f1.v2"
+				case st.Kw == "if-feature" && (st.Arg == "f1" || strings.HasSuffix(st.Arg, ":f1")):
+					st.Arg += ".v2"
+				}
+			}, 0)
+		}
+		for i, f := range ms.Features {
+			if strings.HasSuffix(f, ":f1") {
+				ms.Features[i] = f + ".v2"
+			}
+		}
+	}
 	// a denser feature dependency DAG (only on earlier features)
 	var all []*yang.Stmt
 	for _, m := range ms.Mods {
@@ -981,7 +999,7 @@ func (p *c14) Run(tier string, seed int64, idx int) core.CaseResult {
 			}
 			on := featureClosure(c.ms, enabled)
 			pruned, removed := pruneAbsent(c.ms, on, false)
-			compileFeatureForm, compileAllFeatures = mask%4, c.ms.Features
+			compileFeatureForm, compileAllFeatures = mask%5, c.ms.Features
 			a := compileTexts(texts, nil, fl, nil, true)
 			compileFeatureForm, compileAllFeatures = 0, nil
 			b := compileTexts(pruned.Texts(nil), nil, fl, nil, true)
